@@ -182,6 +182,57 @@ fn green_share() {
     t.join().unwrap();
 }
 
+/// green tokens are shared between trees and threads like green nodes: two threads clone and drop handles to the same
+/// tokens at overlapping times, directly and through `replace_with` on sibling nodes (which re-wraps the parent and so
+/// clones the handles of all the siblings)
+fn green_tokens() {
+    let (g, _) = tree();
+    let g2 = g.clone();
+    let t = thread::spawn(move || {
+        let mut held = vec![];
+        for _ in 0..3 {
+            for e in g2.children() {
+                if let Some(t) = e.into_token() {
+                    held.push(t.clone());
+                }
+            }
+        }
+        let inner = g2.children().next().and_then(|e| e.into_node().cloned());
+        if let Some(n) = inner {
+            for e in n.children() {
+                if let Some(t) = e.into_token() {
+                    held.push(t.clone());
+                }
+            }
+        }
+        drop(g2);
+        held.len()
+    });
+    let mut held = vec![];
+    for _ in 0..3 {
+        for e in g.children() {
+            if let Some(t) = e.into_token() {
+                held.push(t.clone());
+            }
+        }
+    }
+    drop(held);
+    t.join().unwrap();
+    // replace_with from two threads on sibling nodes of one shared red tree
+    let (g, _) = tree();
+    let root: Node = SyntaxNode::new_root(g);
+    let r2 = root.clone();
+    let t = thread::spawn(move || {
+        let first = r2.first_child().unwrap().clone();
+        let new = first.replace_with(first.green().clone());
+        drop(new);
+    });
+    let last = root.last_child().unwrap().clone();
+    let new = last.replace_with(last.green().clone());
+    drop(new);
+    t.join().unwrap();
+}
+
 pub const PROGRAMS: &[(&str, fn())] = &[
     ("clone_clone", clone_clone),
     ("drop_unjoined", drop_unjoined),
@@ -190,6 +241,7 @@ pub const PROGRAMS: &[(&str, fn())] = &[
     ("data_slots", data_slots),
     ("resolved", resolved),
     ("green_share", green_share),
+    ("green_tokens", green_tokens),
 ];
 
 fn main() {
